@@ -9,7 +9,8 @@ SCENARIOS = ["getter", "add_entry", "update_entries", "update_entries+cleanup", 
              "actuate (invalid value)", "batch_actuate", "batch_actuate (unknown id)", "housekeeping step",
              "shutdown", "three getters"]
 KINDS = {1: "update", 2: "subscribe", 3: "subscribe_query", 4: "housekeeping", 5: "provide_actuation", 6: "actuate",
-         7: "batch_actuate", 8: "add_entry", 9: "get", 10: "shutdown", 11: "subscribe-and-leave", 12: "subscribe_query-and-leave"}
+         7: "batch_actuate", 8: "add_entry", 9: "get", 10: "shutdown", 11: "subscribe-and-leave", 12: "subscribe_query-and-leave",
+         13: "subscribe_query (lazy reader)", 14: "burst of 12 updates"}
 VERDICTS = {1: "deadlock: an unfinished call with nothing runnable",
             2: "stale subscriber: last value sent differs from the stored value",
             3: "subscribers saw the changes of a signal in different orders",
@@ -104,10 +105,12 @@ def task_sets(tier, focus):
         (lambda a, b=-1: (5, a, b)), (lambda a: (6, a, 0)), (lambda a, b: (7, a, b)), (lambda n: (8, n, 0)), \
         (lambda a: (9, a, 0)), (10, 0, 0)
     D, DQ = (lambda a: (11, a, 0)), (lambda a: (12, a, 0))     # subscribers that go away at once
+    LQ, BU = (lambda a: (13, a, 0)), (lambda a, b: (14, a, b))  # a query subscriber that reads lazily; a burst of writes
     sets = []
     if focus == "C08":
         sets = [[D(0), S(0), U(0, 101)], [DQ(0), S(0), U(0, 101)], [S(0), D(0), U(0, 101), U(0, 102)],
                 [D(0), S(0), U(0, 101), H],
+                [LQ(0), U(0, 101)], [LQ(0), U(0, 101), U(0, 102), H], [LQ(0), BU(0, 200)], [LQ(0), S(0), BU(0, 200), U(0, 101)],
                 [S(0), U(0, 101)], [S(0), U(0, 101), U(0, 102)], [S(0), S(0), U(0, 101), U(0, 102)],
                 [S(0), U(0, 101), H], [S(0), U(0, 101), Q(0)], [S(0), S(1), U(0, 101), U(1, 102)],
                 [S(0), U(0, 101), U(0, 102), H, Q(0)]]
